@@ -32,3 +32,79 @@ Section WithCodec.
                      match read_range file o l with Some b => Ok (Some b) | None => Err end
     end).
 End WithCodec.
+
+(* ---------- the whole file (reader.rs: open_reader + get_tile_data; writer.rs: layout) ---------- *)
+From VT Require Import Model.VTBlock.
+
+Section WholeFile.
+  Variables (brotli : list N -> list N) (unb : list N -> option (list N)).
+
+  (* BlockIndex::from_blob: 33-byte definitions, one after the other; a later definition of a block
+     coordinate replaces an earlier one (HashMap insert) *)
+  Fixpoint bidx_read (count : nat) (l : list N) : outcome (list bdef) :=
+    match count with
+    | O => Ok []
+    | S k => obind (bdef_from_blob (firstn 33 l)) (fun b => omap (cons b) (bidx_read k (skipn 33 l)))
+    end.
+  Definition bidx_from_blob (l : list N) : outcome (list bdef) :=
+    let count := N.of_nat (length l) / 33 in
+    if negb (count * 33 =? N.of_nat (length l)) then Err else bidx_read (N.to_nat count) l.
+  Definition bidx_find (bs : list bdef) (z bx by_ : N) : option bdef :=
+    find (fun b => (bd_z b =? z) && (bd_x b =? bx) && (bd_y b =? by_)) (rev bs).
+
+  Definition vt_file_lookup (file : list N) (z x y : N) : outcome (option (list N)) :=
+    obind (hdr_from_blob (firstn 66 file)) (fun h =>
+    obind (if 0 <? h_mlen h then                                             (* metadata is read while opening *)
+             match read_range file (h_moff h) (h_mlen h) with None => Err | Some _ => Ok tt end
+           else Ok tt) (fun _ =>
+    match read_range file (h_boff h) (h_blen h) with
+    | None => Err
+    | Some bz =>
+        match unb bz with
+        | None => Err
+        | Some raw =>
+            obind (bidx_from_blob raw) (fun bs =>
+            if 31 <? z then Err else                                          (* TileCoord3::new(x >> 8, y >> 8, z) *)
+            match bidx_find bs z (x / 256) (y / 256) with
+            | None => Ok None
+            | Some b =>
+                if negb ((bd_gx0 b <=? x) && (x <=? bd_gx1 b) && (bd_gy0 b <=? y) && (y <=? bd_gy1 b)) then Ok None else
+                let width := bd_gx1 b - bd_gx0 b + 1 in
+                let slot := (y - bd_gy0 b) * width + (x - bd_gx0 b) in
+                let count := (bd_cx1 b - bd_cx0 b + 1) * (bd_cy1 b - bd_cy0 b + 1) in       (* tiles_coverage.count_tiles() *)
+                read_tile unb file (bd_toff b) (bd_ioff b) (bd_ilen b) (N.to_nat count) (N.to_nat slot)
+            end)
+        end
+    end)).
+
+  (* the writer: blocks one after the other behind header and metadata, each as tile data followed by
+     its compressed tile index; block index last; the header names metadata and block index *)
+  Definition cell := (N * (N * N * N * N))%type.            (* level, (x_min, y_min, x_max, y_max) of a 256-grid cell *)
+  Definition region (slots : list (option (list N))) : list N :=
+    let st := write_block slots in w_data st ++ brotli (tidx_as_blob (w_index st)).
+
+  Fixpoint lay_blocks (off : N) (bl : list (cell * list (option (list N)))) : list bdef :=
+    match bl with
+    | [] => []
+    | ((z, (x0, y0, x1, y1)), slots) :: r =>
+        let st := write_block slots in
+        let n := bdef_new z x0 y0 x1 y1 in
+        let tlen := N.of_nat (length (w_data st)) in
+        let ilen := N.of_nat (length (brotli (tidx_as_blob (w_index st)))) in
+        mkBD (bd_z n) (bd_x n) (bd_y n) (bd_cx0 n) (bd_cy0 n) (bd_cx1 n) (bd_cy1 n) x0 y0 x1 y1 off tlen (off + tlen) ilen
+          :: lay_blocks (off + tlen + ilen) r
+    end.
+
+  Fixpoint concat_blobs (bs : list bdef) : outcome (list N) :=
+    match bs with [] => Ok [] | b :: r => obind (bdef_as_blob b) (fun x => omap (app x) (concat_blobs r)) end.
+
+  Definition vt_assemble (h0 : hdr) (metaz : list N) (bl : list (cell * list (option (list N)))) : outcome (list N) :=
+    let start := 66 + N.of_nat (length metaz) in
+    let bs := lay_blocks start bl in
+    let body := flat_map (fun cs => region (snd cs)) bl in
+    obind (concat_blobs bs) (fun raw =>
+    let bidxz := brotli raw in
+    let h := mkH (h_format h0) (h_comp h0) (h_z0 h0) (h_z1 h0) (h_b0 h0) (h_b1 h0) (h_b2 h0) (h_b3 h0)
+                 66 (N.of_nat (length metaz)) (start + N.of_nat (length body)) (N.of_nat (length bidxz)) in
+    Ok (hdr_to_blob h ++ metaz ++ body ++ bidxz)).
+End WholeFile.
